@@ -423,7 +423,7 @@ pub enum Action<'a> {
     Send { data: &'a [u8], port: u8, confirmed: bool },
 }
 
-pub type NbDev<const PW: u8, const G: i8> = nb_device::Device<NbRadio<PW, G>, SRng, 256, 4>;
+pub type NbDev<const PW: u8, const G: i8, const N: usize = 256> = nb_device::Device<NbRadio<PW, G>, SRng, N, 4>;
 pub type AsDev<const PW: u8, const G: i8> = async_device::Device<AsRadio<PW, G>, AsTimer, SRng, 256, 4>;
 
 pub enum AnyDev<const PW: u8, const G: i8> {
@@ -794,7 +794,7 @@ fn render_nb_err<const PW: u8, const G: i8>(e: nb_device::Error<NbRadio<PW, G>>)
 
 /// Drives the nb state machine through one transaction the way an application's event loop
 /// would: send -> (TxDone) -> timeout -> RX1 window {frames..., timeout} -> timeout -> RX2 ...
-fn nb_transact<const PW: u8, const G: i8>(d: &mut NbDev<PW, G>, jm: JoinMode, action: Action<'_>, script: &Script, notes: &mut Vec<String>) -> Resp {
+pub fn nb_transact<const PW: u8, const G: i8, const N: usize>(d: &mut NbDev<PW, G, N>, jm: JoinMode, action: Action<'_>, script: &Script, notes: &mut Vec<String>) -> Resp {
     use nb_device::{Event, Response};
     let first = match action {
         Action::Join => d.join(jm),
@@ -1037,5 +1037,46 @@ impl<const PW: u8, const G: i8> Link<PW, G> {
             // but using a fresh one next time is always legal
         }
         t
+    }
+}
+
+
+/// A state-machine device built with a radio buffer of `N` octets (the const generic the other
+/// monitors leave at 256): personalised, on a scripted radio like every other `Dev`.
+pub struct SmallNb<const N: usize> {
+    pub dev: NbDev<20, 0, N>,
+    pub log: Log,
+    pub net: Net,
+    pub notes: Vec<String>,
+}
+
+impl<const N: usize> SmallNb<N> {
+    pub fn new(reg: Reg, rng: &mut Prng) -> Self {
+        let log: Log = Rc::new(RefCell::new(LogInner { tx_done_ms: 0, snr: 5, rng_next: rng.next_u32(), lead_ms: LEAD_MS, tx_async: rng.bool(), ..Default::default() }));
+        let srng = SRng { log: log.clone(), prng: Some(Prng::new(rng.next_u64())) };
+        let mut dev: NbDev<20, 0, N> = nb_device::Device::new(region_config(reg, None), NbRadio { log: log.clone(), rx: vec![] }, srng);
+        let net = Net { nwk: rng.arr(), app: rng.arr(), addr: rng.next_u32() };
+        let _ = dev.join(JoinMode::ABP { nwkskey: NwkSKey::from(net.nwk), appskey: AppSKey::from(net.app), devaddr: DevAddr::from_value(net.addr) });
+        SmallNb { dev, log, net, notes: vec![] }
+    }
+    pub fn transact(&mut self, action: Action<'_>, script: &Script) -> Resp {
+        self.log.borrow_mut().draws_in_call = 0;
+        self.notes.clear();
+        let jm = JoinMode::ABP { nwkskey: NwkSKey::from(self.net.nwk), appskey: AppSKey::from(self.net.app), devaddr: DevAddr::from_value(self.net.addr) };
+        let d = &mut self.dev;
+        let notes = &mut self.notes;
+        match trap(move || nb_transact(d, jm, action, script, notes)) {
+            Ok(r) => r,
+            Err(t) => Resp::Panic(t.msg, t.loc),
+        }
+    }
+    pub fn ev_len(&self) -> usize {
+        self.log.borrow().ev.len()
+    }
+    pub fn tx_since(&self, start: usize) -> Vec<Vec<u8>> {
+        self.log.borrow().ev[start..].iter().filter_map(|e| if let Ev::Tx { bytes, .. } = e { Some(bytes.clone()) } else { None }).collect()
+    }
+    pub fn evs_since(&self, start: usize) -> Vec<Ev> {
+        self.log.borrow().ev[start..].to_vec()
     }
 }
